@@ -333,8 +333,12 @@ def tasks(tier, seed):
         out.append({"name": name, "fn": fn, "args": args, "budget_s": budget if quick else budget * 5, "max_paths": 5000})
     pairs = [(A, B) for A in ZONES for B in ZONES + [None] if B != "local"]
     if quick:
-        k = 16
-        pairs = [pairs[(seed * k + 7 * j) % len(pairs)] for j in range(k)]
+        # every zone spelling once as TIMEZONE and once as TO_TIMEZONE (partner rotated by the seed), plus a rotating rest
+        n = len(ZONES)
+        ring = [(ZONES[i], ZONES[(i + 1 + seed % (n - 1)) % n]) for i in range(n)]
+        ring = [(A, B) for A, B in ring if B != "local"] + [(ZONES[(seed + 3) % n], None)]
+        k = 5
+        pairs = ring + [p for p in [pairs[(seed * k + 7 * j) % len(pairs)] for j in range(k)] if p not in ring]
     for j, (A, B) in enumerate(pairs):
         for aw in (AWARE if not quick else [AWARE[(j + seed) % 3]]):
             tag = "%s>%s:%s" % (A, B, aw)
